@@ -30,9 +30,17 @@ for n in names:
         bad.append(n + " (go build)")
     else:
         print("[setup] harness %s ok" % n, flush=True)
+# Warm the Go build cache for the race-detector fragment that the C10 check runs in every tier (non-fatal:
+# without it the first quick run builds cold, or reports the fragment as skipped if the race build is impossible).
+for n in ["C10"]:
+    if n in names:
+        r = subprocess.run(["go", "build", "-race", "-tags", "verif", "-o", os.devnull, "./cmd/" + n], cwd="harness", env=vcheck.GOENV)
+        print("[setup] race build %s %s" % (n, "ok" if r.returncode == 0 else "FAILED (the race-detector fragment will be skipped)"), flush=True)
 if bad:
     # A property whose build fails here is reported by its own check (which rebuilds); it must not keep the
     # other properties' checks from running.
     print("[setup] WARNING: build failed for: " + ", ".join(bad), flush=True)
 PY
+# C16: warm the Go build cache for the -race child that the quick tier runs (same env as vcheck; non-fatal)
+( cd harness && CGO_ENABLED=1 timeout 1200 go build -race -tags verif -o /dev/null ./cmd/C16 ) >/dev/null 2>&1 || echo "[setup] note: C16 -race warm-up build did not complete (the check builds it itself, or reports the race fragment as not run)"
 echo "setup ok"
